@@ -135,12 +135,12 @@ type typedConf struct {
 }
 
 type textState struct {
-	mu       sync.Mutex
-	divs     []divergence
-	pending  []pendingFail
-	confs    map[string]typedConf
-	rejected [][]byte
-	rewrites []rewriteCase
+	mu         sync.Mutex
+	divs       []divergence
+	pending    []pendingFail
+	confs      map[string]typedConf
+	rejected   [][]byte
+	rewrites   []rewriteCase
 	rwRejected []rwReject
 }
 
